@@ -138,6 +138,12 @@ RULE_BREAKERS = [
     ('pivot-non-aggregate', 'SELECT s, t FROM #t PIVOT BY s, t', None),
     ('coalesce-mixed', 'SELECT coalesce(i, s) FROM #t', None),
     ('coalesce-empty', 'SELECT coalesce() FROM #t', None),
+    ('coalesce-mixed-after-constant', "SELECT coalesce(s, '-', 0) FROM #t", None),
+    ('coalesce-mixed-constants', "SELECT coalesce(1, 'a') FROM #t", None),
+    ('coalesce-mixed-last', "SELECT coalesce(s, 'x', dt) FROM #t", None),
+    ('coalesce-mixed-null-first', "SELECT coalesce(NULL, 1, 'a') FROM #t", None),
+    ('coalesce-aggregate-after-constant', "SELECT coalesce(s, '-', sum(i)) FROM #t", None),
+    ('valid-coalesce-constant-first', "SELECT coalesce('-', s, t) FROM #t", None),
     ('unhashable-group', 'SELECT count(*) FROM #t GROUP BY (1, 2)', None),
     ('in-subquery-wide', 'SELECT i FROM #t WHERE i IN (SELECT i, j FROM #t)', None),
     ('in-not-collection', 'SELECT i IN 3 FROM #t', None),
